@@ -510,4 +510,84 @@ theorem body_struct_two (k : Nat) (v1 v2 : Val) (e : Nat) (fh sh : List Nat) (ts
     rw [hβ, e80, t0 y (Or.inl hy3b), j0 y hy3a, e5, if_neg (fun hh => hy3b hh.2.symm),
       if_neg (fun hh => absurd hh.1 (by decide)), g0 y (Or.inl hy2), f0 y hy1, eb0, if_neg (fun hh => hy2 hh.symm)]
 
+/-! ## the theorem on `insert_vertices_on_edge` -/
+
+/-- **C14 (b), exact β tables**: after a successful `insert_vertices_on_edge` on a well-formed map the edge is
+    replaced by the `k + 1` segments of `InsertResult` — `e → fh[0] → … → fh[k-1] → old successor` on the first side,
+    the mirrored chain on the second side of a two-dart edge, β2 pairing the two sides in reverse order — every other
+    β1 / β2 image of every dart is unchanged, β0 changes only at the new darts and the two old successors, and the map is
+    well formed again (so β0 is the inverse of β1 there too).  `fh`, `sh` are the two halves of the spare darts.
+    User-side hypotheses as for `C14_insertVertices_preserves_WF`, plus: the first-half darts are pairwise distinct
+    (also on a one-dart edge). -/
+theorem C14_insertVertices_beta_structure (m m' : Map Val) (e : Nat) (nds : List Nat) (ts : List Rat)
+    (hwf : WF 3 m) (he : C01.InUse m e)
+    (hlive : ∀ d ∈ nds, m.unused d = false)
+    (hfhnd : (nds.take ts.length).Nodup) (hnodup : m.β 2 e ≠ 0 → nds.Nodup)
+    (h : run (insertVerticesOnEdge m.n e nds ts) m = (.ok (), m')) :
+    WF 3 m' ∧ InsertResult m m' e (nds.take ts.length) (nds.drop ts.length) := by
+  refine ⟨C14_insertVertices_preserves_WF m m' e nds ts hwf he hlive hnodup h, ?_⟩
+  obtain ⟨hc, hfree, hok, hfh0, hsh0, _, hend, vid1, vid2, v1, v2, _, _, _, _, hbody⟩ := insertVertices_ok_elim h
+  have hfreeF : ∀ x ∈ nds.take ts.length, ∀ i, i < 3 → m.β i x = 0 :=
+    fun x hx i hi => free_β (hfree x (List.mem_of_mem_take hx)).2 i hi
+  have hfreeS : ∀ x ∈ nds.drop ts.length, ∀ i, i < 3 → m.β i x = 0 :=
+    fun x hx i hi => free_β (hfree x (List.mem_of_mem_drop hx)).2 i hi
+  -- the edge dart is not free, hence not a spare dart
+  have heF : e ∉ nds.take ts.length := by
+    intro hh
+    rcases hend with c | c
+    · exact c (hfreeF e hh 1 (by omega))
+    · exact c (hfreeF e hh 2 (by omega))
+  have hndF : (e :: nds.take ts.length).Nodup := by
+    simp only [List.nodup_cons]; exact ⟨heF, hfhnd⟩
+  by_cases h2 : m.β 2 e = 0
+  · exact body_struct_one m.n v1 v2 e _ _ ts m m' hwf.toSized hwf.null h2 hfh0 hfreeF hndF hbody
+  · have hinv := hwf.invol 2 (by omega) (by omega) e he.2.1 h2
+    have hnd := hnodup h2
+    rw [← List.take_append_drop ts.length nds] at hnd
+    obtain ⟨_, hndS, hdisj⟩ := List.nodup_append.1 hnd
+    -- neither `e` nor `β2 e` is free
+    have he2S : m.β 2 e ∉ nds.drop ts.length := by
+      intro hh
+      have := hfreeS _ hh 2 (by omega)
+      rw [hinv.1] at this; exact he.1 this
+    have he2F : m.β 2 e ∉ nds.take ts.length := by
+      intro hh
+      have := hfreeF _ hh 2 (by omega)
+      rw [hinv.1] at this; exact he.1 this
+    have heS : e ∉ nds.drop ts.length := fun hh => h2 (hfreeS e hh 2 (by omega))
+    refine body_struct_two m.n v1 v2 e _ _ ts m m' hwf.toSized hwf.null he.1 h2 (fun hh => hinv.2 hh.symm)
+      hfh0 hfreeF hndF (hsh0 h2) hfreeS (by simp only [List.nodup_cons]; exact ⟨he2S, hndS⟩) ?_ ?_ hbody
+    · intro x hx hx2
+      simp only [List.mem_cons] at hx hx2
+      rcases hx with rfl | hx
+      · rcases hx2 with c | c
+        · exact hinv.2 c.symm
+        · exact heS c
+      · rcases hx2 with c | c
+        · exact he2F (c ▸ hx)
+        · exact hdisj x hx x c rfl
+    · rw [List.length_take, List.length_drop]; omega
+
+/-! ## non-vacuity -/
+
+/-- two-dart edge 1 ↔ 4 of `exMap` (dart 1 on the triangle 1-2-3), two vertices, spare darts 5, 6 | 7, 8 -/
+def exMap2 : Map Val :=
+  { (Map.empty 3 6 9 : Map Val) with
+    b := #[#[0, 3, 1, 2, 0, 0, 0, 0, 0], #[0, 2, 3, 1, 0, 0, 0, 0, 0], #[0, 4, 0, 0, 1, 0, 0, 0, 0]]
+    a := #[#[none, some (.pt 0 0 0), some (.pt 4 0 0), some (.pt 0 4 0), none, none, none, none, none],
+           Array.replicate 10 none, Array.replicate 10 none, Array.replicate 10 none,
+           Array.replicate 10 none, Array.replicate 10 none] }
+
+example : (run (insertVerticesOnEdge exMap2.n 1 [5, 6, 7, 8] [1/4, 1/2]) exMap2).1 = .ok () := by decide +kernel
+
+example : InsertResult exMap2 (run (insertVerticesOnEdge exMap2.n 1 [5, 6, 7, 8] [1/4, 1/2]) exMap2).2 1 [5, 6] [7, 8] :=
+  (C14_insertVertices_beta_structure exMap2 _ 1 [5, 6, 7, 8] [1/4, 1/2] (by decide +kernel) (by decide +kernel)
+    (by decide +kernel) (by decide) (by decide +kernel) (ok_of_fst (by decide +kernel))).2
+
+/-- what it says on this instance: 1 → 5 → 6 → 2, 4 → 7 → 8 (4 was 1-free), β2: 4 ↔ 6, 7 ↔ 5, 8 ↔ 1 -/
+def exRes2 : Map Val := (run (insertVerticesOnEdge exMap2.n 1 [5, 6, 7, 8] [1/4, 1/2]) exMap2).2
+
+example : [exRes2.β 1 1, exRes2.β 1 5, exRes2.β 1 6, exRes2.β 1 4, exRes2.β 1 7, exRes2.β 1 8,
+    exRes2.β 2 4, exRes2.β 2 7, exRes2.β 2 8, exRes2.β 2 1] = [5, 6, 2, 7, 8, 0, 6, 5, 1, 8] := by decide +kernel
+
 end HC.C14
